@@ -142,27 +142,19 @@ Fixpoint protocol_run_b (s : st) (ops : list op) : bool :=
 
 (* Requests issued through the director by a step that exists: the creator of a declaration or of
    a new step is the root (boot) or a step node; the amended / holding / releasing step exists;
-   argument lists are duplicate free (the code makes them sorted(set(...))); a step does not
-   define a step with its own label (see C09_self_definition_internal_refuted). *)
+   argument lists are duplicate free (the code makes them sorted(set(...))). *)
 Definition requester_b (c : key) (s : st) : bool :=
   is_some (find_node c s) && (key_eqb c root_key || kind_eqb (fst c) KStep).
 Definition request_ok (s : st) (o : op) : bool :=
   match o with
   | OpDeclareStatic c paths => requester_b c s && nodup_by str_eqb paths
   | OpDefineStep c l inp env out vol nd =>
-    requester_b c s && negb (key_eqb c (KStep, l)) && nodup_by str_eqb out && nodup_by str_eqb vol
+    requester_b c s && nodup_by str_eqb out && nodup_by str_eqb vol
   | OpAmendStep l inp env out vol =>
     is_some (find_node (KStep, l) s) && nodup_by str_eqb out && nodup_by str_eqb vol
   | OpHold l => is_some (find_step l s)
   | OpRelease l => is_some (find_step l s)
   | _ => false
-  end.
-(* the same without the self-definition clause *)
-Definition request_ok_weak (s : st) (o : op) : bool :=
-  match o with
-  | OpDefineStep c l inp env out vol nd =>
-    requester_b c s && nodup_by str_eqb out && nodup_by str_eqb vol
-  | _ => request_ok s o
   end.
 Definition is_internal {A} (r : res A) : bool := match r with Internal _ => true | _ => false end.
 
